@@ -128,8 +128,8 @@ theorem valScan_false : ValScan ['f','a','l','s','e'] :=
 theorem objStep_strVal (kvp : Text) (c : Char) (b : Bool) (hc : strCharOk c = true) (hk : kvp.head? ≠ some '\\') :
     objStep (.strVal kvp) c b = .next (.strVal (c :: kvp)) := by
   simp only [strCharOk, Bool.and_eq_true, bne_iff_ne, ne_eq] at hc
-  obtain ⟨⟨h1, h2⟩, h3⟩ := hc
-  simp only [objStep, h1, Bool.not_true, Bool.false_eq_true, if_false]
+  obtain ⟨h2, h3⟩ := hc
+  simp only [objStep]
   have : (c != '"' && kvp.head? != some '\\') = true := by simp [h2, hk]
   simp [this]
 
@@ -139,7 +139,7 @@ theorem objRun_strVal (s : Text) (hs : ∀ c ∈ s, strCharOk c = true) (kvp : T
   induction s generalizing kvp with
   | nil =>
     have : objStep (.strVal kvp) '"' acc.isEmpty = .next (.tillComma ('"' :: kvp) []) := by
-      simp [objStep, isAscii]
+      simp [objStep]
     simp only [List.nil_append, objRun, this, List.reverse_nil]
   | cons c cs ih =>
     have hc := hs c (by simp)
@@ -339,64 +339,48 @@ end Rws.Json
 namespace Rws.Json
 open Rws
 
-/-! ### nested values: the bracket counters -/
+/-! ### nested values: the bracket counters (`balRun`, `nestedOk`: Lemmas/JsonSplit.lean) -/
 
-/-- the counting loop of the scanners run on `body` (the text after the opening bracket) with
-    `o` brackets open and `c` closed: all characters ASCII, and the counters meet exactly at the
-    last character -/
-def balRun (op cl : Char) : Nat → Nat → Text → Bool
-  | _, _, [] => false
-  | o, c, x :: xs =>
-    isAscii x &&
-    (if (if x = op then o + 1 else o) = (if x = cl then c + 1 else c) then xs.isEmpty
-     else balRun op cl (if x = op then o + 1 else o) (if x = cl then c + 1 else c) xs)
-
-/-- a nested object / array text the scanners read as one value -/
-def nestedOk (op cl : Char) (t : Text) : Bool :=
-  match t with
-  | [] => false
-  | x :: body => x == op && balRun op cl 1 0 body && (x :: body).getLast? == some cl
-
-theorem objRun_obj (body : Text) (o c : Nat) (hb : balRun '{' '}' o c body = true) (kvp : Text) (acc : Props) (rest : Text) :
-    objRun (.obj kvp o c) acc (body ++ rest) = objRun (.tillComma (body.reverse ++ kvp) []) acc rest := by
-  induction body generalizing o c kvp with
+theorem objRun_obj (body : Text) (o c : Nat) (s : Bool) (kvp : Text) (hb : balRun '{' '}' kvp.head? s o c body = true)
+    (acc : Props) (rest : Text) :
+    objRun (.obj kvp o c s) acc (body ++ rest) = objRun (.tillComma (body.reverse ++ kvp) []) acc rest := by
+  induction body generalizing o c s kvp with
   | nil => simp [balRun] at hb
   | cons x xs ih =>
-    simp only [balRun, Bool.and_eq_true] at hb
-    obtain ⟨hx, hb⟩ := hb
-    by_cases heq : (if x = '{' then o + 1 else o) = (if x = '}' then c + 1 else c)
+    simp only [balRun] at hb
+    by_cases heq : bump '{' (strFlag kvp.head? s x) o x = bump '}' (strFlag kvp.head? s x) c x
     · simp only [heq, if_true, List.isEmpty_iff] at hb
       subst hb
-      have : objStep (.obj kvp o c) x acc.isEmpty = .next (.tillComma (x :: kvp) []) := by
-        simp [objStep, hx, heq]
+      have : objStep (.obj kvp o c s) x acc.isEmpty = .next (.tillComma (x :: kvp) []) := by
+        simp [objStep, heq]
       simp only [List.cons_append, List.nil_append, objRun, this, List.reverse_cons, List.reverse_nil]
     · simp only [heq, if_false] at hb
-      have : objStep (.obj kvp o c) x acc.isEmpty =
-          .next (.obj (x :: kvp) (if x = '{' then o + 1 else o) (if x = '}' then c + 1 else c)) := by
-        simp [objStep, hx, heq]
+      have : objStep (.obj kvp o c s) x acc.isEmpty =
+          .next (.obj (x :: kvp) (bump '{' (strFlag kvp.head? s x) o x) (bump '}' (strFlag kvp.head? s x) c x) (strFlag kvp.head? s x)) := by
+        simp [objStep, heq]
       simp only [List.cons_append, objRun, this]
-      rw [ih _ _ hb]
+      rw [ih _ _ _ (x :: kvp) (by simpa using hb)]
       simp
 
-theorem objRun_arr (body : Text) (o c : Nat) (hb : balRun '[' ']' o c body = true) (kvp : Text) (acc : Props) (rest : Text) :
-    objRun (.arr kvp o c) acc (body ++ rest) = objRun (.tillComma (body.reverse ++ kvp) []) acc rest := by
-  induction body generalizing o c kvp with
+theorem objRun_arr (body : Text) (o c : Nat) (s : Bool) (kvp : Text) (hb : balRun '[' ']' kvp.head? s o c body = true)
+    (acc : Props) (rest : Text) :
+    objRun (.arr kvp o c s) acc (body ++ rest) = objRun (.tillComma (body.reverse ++ kvp) []) acc rest := by
+  induction body generalizing o c s kvp with
   | nil => simp [balRun] at hb
   | cons x xs ih =>
-    simp only [balRun, Bool.and_eq_true] at hb
-    obtain ⟨hx, hb⟩ := hb
-    by_cases heq : (if x = '[' then o + 1 else o) = (if x = ']' then c + 1 else c)
+    simp only [balRun] at hb
+    by_cases heq : bump '[' (strFlag kvp.head? s x) o x = bump ']' (strFlag kvp.head? s x) c x
     · simp only [heq, if_true, List.isEmpty_iff] at hb
       subst hb
-      have : objStep (.arr kvp o c) x acc.isEmpty = .next (.tillComma (x :: kvp) []) := by
-        simp [objStep, hx, heq]
+      have : objStep (.arr kvp o c s) x acc.isEmpty = .next (.tillComma (x :: kvp) []) := by
+        simp [objStep, heq]
       simp only [List.cons_append, List.nil_append, objRun, this, List.reverse_cons, List.reverse_nil]
     · simp only [heq, if_false] at hb
-      have : objStep (.arr kvp o c) x acc.isEmpty =
-          .next (.arr (x :: kvp) (if x = '[' then o + 1 else o) (if x = ']' then c + 1 else c)) := by
-        simp [objStep, hx, heq]
+      have : objStep (.arr kvp o c s) x acc.isEmpty =
+          .next (.arr (x :: kvp) (bump '[' (strFlag kvp.head? s x) o x) (bump ']' (strFlag kvp.head? s x) c x) (strFlag kvp.head? s x)) := by
+        simp [objStep, heq]
       simp only [List.cons_append, objRun, this]
-      rw [ih _ _ hb]
+      rw [ih _ _ _ (x :: kvp) (by simpa using hb)]
       simp
 
 theorem valScan_obj (t : Text) (h : nestedOk '{' '}' t = true) : ValScan t := by
@@ -408,9 +392,9 @@ theorem valScan_obj (t : Text) (h : nestedOk '{' '}' t = true) : ValScan t := by
     subst hx
     apply valScan_of_till
     intro kvp acc rest
-    have h1 : objRun (.value kvp) acc ('{' :: body ++ rest) = objRun (.obj ('{' :: kvp) 1 0) acc (body ++ rest) := by
+    have h1 : objRun (.value kvp) acc ('{' :: body ++ rest) = objRun (.obj ('{' :: kvp) 1 0 false) acc (body ++ rest) := by
       simp only [List.cons_append, objRun]; rfl
-    rw [h1, objRun_obj body 1 0 hb]
+    rw [h1, objRun_obj body 1 0 false ('{' :: kvp) hb]
     simp
 
 theorem valScan_arr (t : Text) (h : nestedOk '[' ']' t = true) : ValScan t := by
@@ -422,9 +406,9 @@ theorem valScan_arr (t : Text) (h : nestedOk '[' ']' t = true) : ValScan t := by
     subst hx
     apply valScan_of_till
     intro kvp acc rest
-    have h1 : objRun (.value kvp) acc ('[' :: body ++ rest) = objRun (.arr ('[' :: kvp) 1 0) acc (body ++ rest) := by
+    have h1 : objRun (.value kvp) acc ('[' :: body ++ rest) = objRun (.arr ('[' :: kvp) 1 0 false) acc (body ++ rest) := by
       simp only [List.cons_append, objRun]; rfl
-    rw [h1, objRun_arr body 1 0 hb]
+    rw [h1, objRun_arr body 1 0 false ('[' :: kvp) hb]
     simp
 
 /-! ### typing of the written values -/
@@ -493,7 +477,7 @@ theorem classify_string (name s : Text) (hs : ∀ c ∈ s, strCharOk c = true) :
     classify name ('"' :: (s ++ ['"'])) = .ok (⟨name, tString⟩, { string := some s }) := by
   have hq : ∀ c ∈ s, c ≠ '"' := by
     intro c hc; have := hs c hc
-    simp only [strCharOk, Bool.and_eq_true, bne_iff_ne, ne_eq] at this; exact this.1.2
+    simp only [strCharOk, Bool.and_eq_true, bne_iff_ne, ne_eq] at this; exact this.1
   have e1 : ('"' :: (s ++ ['"'])) ≠ ['n','u','l','l'] := by intro h; simp at h
   have hl : ('"' :: (s ++ ['"'])).getLast? = some '"' := by
     rw [← List.cons_append]; exact List.getLast?_concat ..
